@@ -267,7 +267,14 @@ def run(C, R):
                 nd += 1
                 for path in E.run(fn['path']):
                     calls = [e['name'] for e in path.events if e['k'] == 'call']
-                    if 'deadline_from_now' in calls and 'deadline' in calls:
+                    dfn_rets = [e['ret'] for e in path.events if e['k'] == 'ret' and e.get('name') == 'deadline_from_now']
+                    dfn_rets += [e['ret'] for e in path.events if e['k'] == 'call' and e['name'] == 'deadline_from_now'
+                                 and e.get('ret') is not None]
+                    # delay(d) hands out a future whose expiry is deadline_from_now(d) - through deadline() or directly
+                    used = any(contains(path.ret, r) for r in dfn_rets) or any(
+                        e['k'] == 'call' and any(contains(a, r) for a in e.get('args', ()) for r in dfn_rets)
+                        for e in path.events)
+                    if 'deadline_from_now' in calls and ('deadline' in calls or used):
                         R.ok('C15.R5', '%s|delay = deadline(deadline_from_now(d))' % fn['path'])
                     else:
                         R.fail('C15.R5', [fn['path'], 'delay'], 'delay() does not go through deadline_from_now',
